@@ -73,6 +73,13 @@ FAMILIES = {
     "nested-array-refs": (2, lambda n: wrap(["x = " + "a(" * n + "i" + ")" * n])),
     "nested-array-constructors": (2, lambda n: wrap(["x = " + "[" * n + "1" + "]" * n])),
     "nested-structure-refs": (2, lambda n: wrap(["x = " + "%".join("c%d(i)" % i for i in range(n + 1))])),
+    "nested-paren-and-right": (2, lambda n: wrap(["x = " + "(a .and. " * n + "b" + ")" * n])),
+    "nested-paren-or-left": (2, lambda n: wrap(["x = " + "(" * n + "a" + " .or. b)" * n])),
+    "nested-paren-eq-eqv": (2, lambda n: wrap(["x = " + "((i .eq. j) .eqv. " * n + "l" + ")" * n])),
+    "nested-paren-plus": (2, lambda n: wrap(["x = " + "(a + " * n + "b" + ")" * n])),
+    "nested-paren-mixed-ops": (2, lambda n: wrap(["x = " + "".join(["(a * ", "(a .lt. ", "(a // ", "(a ** ", "(.not. "][i % 5] for i in range(n)) + "b" + ")" * n])),
+    "nested-paren-defined-op": (2, lambda n: wrap(["x = " + "(a .myop. " * n + "b" + ")" * n])),
+    "if-condition-nested-logical": (2, lambda n: wrap(["if (" + "(a .and. " * n + "b" + ")" * n + ") x = 1"])),
     "nested-if-stmt-in-do": (2, lambda n: nest(lambda i: "do i%d = 1, 2\nif (a > %d) a = %d" % (i, i, i), lambda i: "end do", n)),
 }
 F2008_ONLY = {"nested-block", "nested-mixed"}
